@@ -1,9 +1,14 @@
 import MythVerif.Model.WsQueue
 /-! x86-TSO model of the work-stealing queue: owner `push` / `pop` (all paths: lock-free fast
-    path, locked slow path, reset) and owner `put` (base-side insert under the lock) against any
-    number of other participants running `myth_queue_take`, `myth_queue_trypass` and
-    `myth_queue_peek` (lock-free loads of `base`, `top` and one slot; the value is a hint to the
-    caller and nothing is removed).
+    path, locked slow path with the invalidation of the steal cache, reset) and owner `put`
+    (base-side insert under the lock), both with re-centring, and `clear`, against any number of other
+    participants running `myth_queue_take`, `myth_queue_trypass`, `myth_queue_peek` (lock-free
+    loads of `base`, `top` and one slot; the value is a hint to the caller and nothing is removed),
+    `myth_wsapi_runqueue_take` (trylock, decision callback: label `tDecide`; a decline rolls `base`
+    back) and the caching `myth_wsapi_runqueue_peek` (`/repo/src/myth_if_native.c`).  Of the steal
+    cache only its pointer word `wc->ptr` is modelled (memory word `cache`, buffer entry
+    `Sto.cache`), as in the SC model: `seq`, `size` and `data` carry the advisory copy of the hint
+    and do not influence the queue.
 
     Machine (DESIGN 3.2 / A.3): one FIFO store buffer per participant; a store appends to the
     own buffer; a load forwards from the newest own buffered store to that location, else reads
@@ -24,9 +29,31 @@ import MythVerif.Model.WsQueue
     `e` (the element whose slot store precedes it in the same FIFO buffer); draining it conses `e`
     to the abstract deque.
 
-    Not modelled here (the `_partial` in the theorem name): the wsapi functions, the steal
-    cache, clear, re-centring (a push at `top == size` goes to `stuck`, a put at `base == 0` goes
-    to `stuckL` – still holding the lock, as the code does while it re-centres). -/
+    Re-centring (push at `top == size`, put at `base == 0`; both under the lock, entered with an
+    empty buffer because the lock CAS is a locked instruction).  The `memmove` of the live window
+    is ONE buffer entry `Sto.shift lo hi off`; draining it moves the slots `[lo, hi)` by `off` in
+    memory.  The stores of `top` and `base` that follow are ordinary entries behind it, and so
+    are – for put – the slot store and the inserting `base` store of the insertion proper (no
+    fence separates them from the re-centring: the owner's buffer can hold all five).  Why one
+    entry is enough: the individual slot stores of `memmove` could only be told apart by a load
+    of a slot that happens while some of them have drained and others have not.  Slots are
+    loaded by (i) a participant holding the queue lock (take's `tk3`) – excluded until the
+    owner's unlock, whose fence drains the whole buffer first; (ii) the owner itself, which
+    forwards from its own buffer and sees the moved window whatever has drained; (iii) the
+    lock-free `myth_queue_peek` (`pk3`), whose value the model does not record at all, i.e. it
+    may be anything.  The other lock-free loads (the quick checks `tq0/tq1`, `kq0/kq1`, peek's
+    `pk1/pk2`) read `top` / `base` only – whatever memory holds at that moment, possibly the
+    half-updated pair in the middle of a re-centring – and nothing in the invariant or in the
+    theorems constrains the values they read: a take re-reads both under the lock, peek is
+    advisory.  The logical window `lb`/`lt` moves when the shift entry drains (memory-side
+    clauses stay valid as they are); the ghost `sh` is the offset of a shift entry that is still
+    buffered (0 otherwise), so that `lb + sh` / `lt + sh` are the owner's view of `base` / `top`.
+    `stuck` / `stuckL` are the two `abort()`s ("Runqueue overflow": `top == size ∧ base == 0`),
+    reached holding the lock.
+
+    `myth_queue_clear` (lock; `myth_assert(top == base)` – its failure is the pc `assertFail`;
+    `base = size/2`; `top = base`; unlock) completes the list: every operation of
+    `myth_wsqueue_func.h` and the two queue functions of `myth_if_native.c` are in the machine. -/
 namespace MythVerif.WsqTso
 open MythVerif.Wsq
 
@@ -35,10 +62,12 @@ structure FenceCfg where
   popFence : Bool    -- myth_wsqueue_rwbarrier after `q->top = top` in pop
   takeFence : Bool   -- myth_wsqueue_rwbarrier after `q->base = b+1` in take
   unlockFence : Bool -- myth_rwbarrier before the releasing store
+  wtakeFence : Bool  -- myth_wsqueue_rwbarrier after `q->base = b+1` in myth_wsapi_runqueue_take
+  wpeekFence : Bool  -- myth_wsqueue_rwbarrier after `q->base = b+1` in myth_wsapi_runqueue_peek
   deriving DecidableEq, Repr
 
 /-- the fences of the source code -/
-def FenceCfg.code : FenceCfg := ⟨true, true, true, true⟩
+def FenceCfg.code : FenceCfg := ⟨true, true, true, true, true, true⟩
 
 inductive Sto where
   | top (v : Int)
@@ -46,13 +75,21 @@ inductive Sto where
   | ptr (i : Int) (x : Option Elem)
   | unlock
   | baseI (v : Int) (e : Elem)       -- store of `base` by put / trypass (ghost tag: the element inserted)
+  | shift (lo hi off : Int)          -- memmove(&ptr[lo+off], &ptr[lo], hi-lo) of a re-centring
+  | cache (x : Option Elem)          -- wc->ptr = x
   deriving DecidableEq, Repr
 
 inductive OPc where
   | idle
-  | stuck                            -- push at top == size (re-centring is outside this model)
+  | stuck                            -- push: abort() at top == size && base == 0 (lock held)
   | pu0 (e : Elem)                   -- t = q->top
-  | pu0f (e : Elem) (t : Int)        -- rbarrier
+  | pu0f (e : Elem) (t : Int)        -- rbarrier ; if (t == q->size)
+  | pul (e : Elem)                   -- lock CAS
+  | pub (e : Elem)                   -- if (q->base == 0) abort ; offset = (-q->base-1)/2
+  | pum (e : Elem) (off : Int)       -- memmove
+  | pus (e : Elem) (off : Int)       -- q->top += offset
+  | puv (e : Elem) (off : Int)       -- q->base += offset ; t = q->top
+  | pux (e : Elem) (t : Int)         -- unlock
   | pu1 (e : Elem) (t : Int)         -- q->ptr[t] = th
   | pu2 (e : Elem) (t : Int)         -- q->top = t+1
   | pq                               -- quick check
@@ -64,17 +101,29 @@ inductive OPc where
   | po4 (t : Int)                    -- base = q->base ; base <= top ?
   | po5 (t : Int) (x : Elem)         -- ret = q->ptr[top]
   | po5b (t : Int) (r : Option Elem) -- q->ptr[top] = NULL
+  | po5c (t : Int) (r : Option Elem) -- if (top <= base)
+  | po5d (r : Option Elem)           -- wc->ptr = NULL
   | po6 (r : Option Elem)            -- unlock
   | po7                              -- q->top = size/2
   | po8                              -- q->base = size/2
   | po9                              -- unlock
-  | stuckL                           -- put at base == 0 (re-centring is outside this model; lock held)
+  | stuckL                           -- put: abort() at base == 0 && top == size (lock held)
   | ptl (e : Elem)                   -- lock CAS
   | pt1 (e : Elem)                   -- if (q->base == 0)
+  | pt2 (e : Elem)                   -- if (q->top == q->size) abort ; offset = (size-top+1)/2
+  | pt3 (e : Elem) (off : Int)       -- memmove
+  | pt4 (e : Elem) (off : Int)       -- q->top += offset
+  | pt5 (e : Elem) (off : Int)       -- q->base += offset
   | pt6 (e : Elem)                   -- b = q->base
   | pt7 (e : Elem) (b : Int)         -- q->ptr[b-1] = th
   | pt8 (e : Elem) (b : Int)         -- q->base = b-1
   | pt9                              -- unlock
+  -- clear
+  | assertFail                       -- myth_assert(q->top == q->base) of clear violated (lock held)
+  | cll                              -- lock CAS
+  | cl1                              -- (assert top == base) q->base = size/2
+  | cl2                              -- q->top = q->base
+  | cl3                              -- unlock
   deriving DecidableEq, Repr
 
 inductive TPc where
@@ -98,6 +147,31 @@ inductive TPc where
   | pk1                              -- b = q->base            (no lock)
   | pk2 (b : Int)                    -- top = q->top ; b < top ?
   | pk3 (b : Int)                    -- rbarrier ; ret = q->ptr[b]   (returned as a hint, nothing removed)
+  -- myth_wsapi_runqueue_take
+  | wq0 | wq1 (t : Int)
+  | wtl                              -- trylock CAS (failure returns NULL)
+  | wk1                              -- b = q->base ; q->base = b+1
+  | wkf (b : Int)                    -- rwbarrier
+  | wk2 (b : Int)                    -- top = q->top ; b < top ?
+  | wk3 (b : Int)                    -- ret = q->ptr[b]
+  | wkd (b : Int) (r : Option Elem)  -- decidefn(ret, udata)              (LP on accept)
+  | wk4 (r : Option Elem)            -- wc->ptr = NULL
+  | wk4u (r : Option Elem)           -- unlock ; return ret
+  | wk5 (b : Int)                    -- q->base = b
+  | wk6                              -- unlock ; return NULL
+  -- myth_wsapi_runqueue_peek (pointer word of the steal cache)
+  | vq0 | vq1 (t : Int)
+  | vc0                              -- if (!wc->ptr)
+  | vl                               -- trylock CAS (failure: goto start)
+  | vc1                              -- if (!wc->ptr) again, under the lock
+  | vk1                              -- b = q->base ; q->base = b+1
+  | vkf (b : Int)                    -- rwbarrier
+  | vk2 (b : Int)                    -- top = q->top ; b < top ?
+  | vk3 (b : Int)                    -- th = q->ptr[b]
+  | vk4 (b : Int) (r : Option Elem)  -- wc->ptr = th
+  | vk5 (b : Int)                    -- q->base = b
+  | vu                               -- unlock
+  | vr                               -- ret = wc->ptr ; return   (a hint, not recorded)
   deriving DecidableEq, Repr
 
 structure St where
@@ -107,6 +181,7 @@ structure St where
   ptr  : Int → Option Elem
   size : Int
   lock : Holder
+  cache : Option Elem
   bufO : List Sto
   bufT : Pid → List Sto
   opc  : OPc
@@ -120,11 +195,13 @@ structure St where
   flT  : Option Elem
   retd : List Elem
   ins  : List Elem
+  sh   : Int        -- offset of a buffered (not yet drained) shift entry, else 0
 
 def init (cfg : FenceCfg) (n : Int) : St :=
-  { cfg := cfg, top := n / 2, base := n / 2, ptr := fun _ => none, size := n, lock := .free,
+  { cfg := cfg, top := n / 2, base := n / 2, ptr := fun _ => none, size := n, lock := .free, cache := none,
     bufO := [], bufT := fun _ => [], opc := .idle, tpc := fun _ => .idle,
-    A := [], lb := n / 2, lt := n / 2, tr := false, flO := none, flT := none, retd := [], ins := [] }
+    A := [], lb := n / 2, lt := n / 2, tr := false, flO := none, flT := none, retd := [], ins := [],
+    sh := 0 }
 
 /-- newest buffered value of `top`, else the given (memory) value -/
 def viewTop : List Sto → Int → Int
@@ -134,6 +211,8 @@ def viewTop : List Sto → Int → Int
   | .ptr _ _ :: r, m => viewTop r m
   | .unlock :: r, m => viewTop r m
   | .baseI _ _ :: r, m => viewTop r m
+  | .shift _ _ _ :: r, m => viewTop r m
+  | .cache _ :: r, m => viewTop r m
 def viewBase : List Sto → Int → Int
   | [], m => m
   | .base v :: r, _ => viewBase r v
@@ -141,6 +220,8 @@ def viewBase : List Sto → Int → Int
   | .ptr _ _ :: r, m => viewBase r m
   | .unlock :: r, m => viewBase r m
   | .baseI v _ :: r, _ => viewBase r v
+  | .shift _ _ _ :: r, m => viewBase r m
+  | .cache _ :: r, m => viewBase r m
 def viewPtr : List Sto → (Int → Option Elem) → Int → Option Elem
   | [], m, i => m i
   | .ptr j x :: r, m, i => viewPtr r (upd m j x) i
@@ -148,19 +229,35 @@ def viewPtr : List Sto → (Int → Option Elem) → Int → Option Elem
   | .base _ :: r, m, i => viewPtr r m i
   | .unlock :: r, m, i => viewPtr r m i
   | .baseI _ _ :: r, m, i => viewPtr r m i
+  | .shift lo hi off :: r, m, i => viewPtr r (shiftPtr m lo hi off) i
+  | .cache _ :: r, m, i => viewPtr r m i
+def viewCache : List Sto → Option Elem → Option Elem
+  | [], m => m
+  | .cache x :: r, _ => viewCache r x
+  | .top _ :: r, m => viewCache r m
+  | .base _ :: r, m => viewCache r m
+  | .ptr _ _ :: r, m => viewCache r m
+  | .unlock :: r, m => viewCache r m
+  | .baseI _ _ :: r, m => viewCache r m
+  | .shift _ _ _ :: r, m => viewCache r m
 
 /-- drain one store into memory (ghost `tr` follows the memory value of `base`; the drain of an
-    inserting `base` store is the linearization point of put / trypass) -/
+    inserting `base` store is the linearization point of put / trypass; the drain of a shift moves
+    the logical window together with the slots) -/
 def applySto (s : St) : Sto → St
   | .top v => { s with top := v }
   | .base v => { s with base := v, tr := decide (v = s.lb + 1) }
   | .ptr i x => { s with ptr := upd s.ptr i x }
   | .unlock => { s with lock := .free }
   | .baseI v e => { s with base := v, tr := false, A := e :: s.A, lb := s.lb - 1, ins := e :: s.ins }
+  | .shift lo hi off => { s with ptr := shiftPtr s.ptr lo hi off, lb := s.lb + off, lt := s.lt + off, sh := 0 }
+  | .cache x => { s with cache := x }
 
 inductive Lbl where
-  | oPush (e : Elem) | oPop | oPut (e : Elem) | o | flushO
-  | tTake (p : Pid) | tPass (p : Pid) (e : Elem) | tPeek (p : Pid) | t (p : Pid) | flushT (p : Pid)
+  | oPush (e : Elem) | oPop | oPut (e : Elem) | oClear | o | flushO
+  | tTake (p : Pid) | tPass (p : Pid) (e : Elem) | tPeek (p : Pid) | tWTake (p : Pid) | tWPeek (p : Pid)
+  | t (p : Pid) | flushT (p : Pid)
+  | tDecide (p : Pid) (accept : Bool)                       -- the decision callback returns
   deriving DecidableEq, Repr
 
 /-- fence: enabled on an empty buffer (or always, when that fence is switched off) -/
@@ -182,9 +279,23 @@ def stepO (s : St) : Option St :=
   match s.opc with
   | .idle => none
   | .stuck => none
-  | .pu0 e => let t := viewTop s.bufO s.top
-              if t = s.size then some { s with opc := .stuck } else some { s with opc := .pu0f e t }
-  | .pu0f e t => if fenceOk s.cfg.pushRb s.bufO then some { s with opc := .pu1 e t } else none
+  | .pu0 e => some { s with opc := .pu0f e (viewTop s.bufO s.top) }
+  | .pu0f e t => if fenceOk s.cfg.pushRb s.bufO then
+                   (if t = s.size then some { s with opc := .pul e } else some { s with opc := .pu1 e t })
+                 else none
+  | .pul e => if s.bufO.isEmpty then
+                match s.lock with
+                | .free => some { s with lock := .owner, opc := .pub e }
+                | _ => some s
+              else none
+  | .pub e => if viewBase s.bufO s.base = 0 then some { s with opc := .stuck }
+              else some { s with opc := .pum e (rcOff (viewBase s.bufO s.base)) }
+  | .pum e off => some { s with bufO := s.bufO ++ [.shift (viewBase s.bufO s.base) (viewTop s.bufO s.top) off],
+                                sh := off, opc := .pus e off }
+  | .pus e off => some { s with bufO := s.bufO ++ [.top (viewTop s.bufO s.top + off)], opc := .puv e off }
+  | .puv e off => some { s with bufO := s.bufO ++ [.base (viewBase s.bufO s.base + off)],
+                                opc := .pux e (viewTop s.bufO s.top) }
+  | .pux e t => (releaseO s).map fun s' => { s' with opc := .pu1 e t }
   | .pu1 e t => some { s with bufO := s.bufO ++ [.ptr t (some e)], opc := .pu2 e t }
   | .pu2 e t => some { s with bufO := s.bufO ++ [.top (t + 1)], opc := .idle,
                               A := s.A ++ [e], lt := s.lt + 1, ins := e :: s.ins }
@@ -210,7 +321,9 @@ def stepO (s : St) : Option St :=
                 | none => some { s with opc := .po5 t 0 }      -- unreachable when the invariant holds
               else some { s with opc := .po7 }
   | .po5 t _ => some { s with opc := .po5b t (viewPtr s.bufO s.ptr t) }
-  | .po5b t r => some { s with bufO := s.bufO ++ [.ptr t none], opc := .po6 r }
+  | .po5b t r => some { s with bufO := s.bufO ++ [.ptr t none], opc := .po5c t r }
+  | .po5c t r => if t ≤ viewBase s.bufO s.base then some { s with opc := .po5d r } else some { s with opc := .po6 r }
+  | .po5d r => some { s with bufO := s.bufO ++ [.cache none], opc := .po6 r }
   | .po6 r => (releaseO s).map fun s' => { s' with opc := .idle, retd := retOpt s.retd r, flO := none }
   | .po7 => some { s with bufO := s.bufO ++ [.top (s.size / 2)], lt := s.size / 2, lb := s.size / 2, opc := .po8 }
   | .po8 => some { s with bufO := s.bufO ++ [.base (s.size / 2)], opc := .po9 }
@@ -221,11 +334,28 @@ def stepO (s : St) : Option St :=
                 | .free => some { s with lock := .owner, opc := .pt1 e }
                 | _ => some s
               else none
-  | .pt1 e => if viewBase s.bufO s.base = 0 then some { s with opc := .stuckL } else some { s with opc := .pt6 e }
+  | .pt1 e => if viewBase s.bufO s.base = 0 then some { s with opc := .pt2 e } else some { s with opc := .pt6 e }
+  | .pt2 e => if viewTop s.bufO s.top = s.size then some { s with opc := .stuckL }
+              else some { s with opc := .pt3 e ((s.size - viewTop s.bufO s.top + 1) / 2) }
+  | .pt3 e off => some { s with bufO := s.bufO ++ [.shift (viewBase s.bufO s.base) (viewTop s.bufO s.top) off],
+                                sh := off, opc := .pt4 e off }
+  | .pt4 e off => some { s with bufO := s.bufO ++ [.top (viewTop s.bufO s.top + off)], opc := .pt5 e off }
+  | .pt5 e off => some { s with bufO := s.bufO ++ [.base (viewBase s.bufO s.base + off)], opc := .pt6 e }
   | .pt6 e => some { s with opc := .pt7 e (viewBase s.bufO s.base) }
   | .pt7 e b => some { s with bufO := s.bufO ++ [.ptr (b - 1) (some e)], opc := .pt8 e b }
   | .pt8 e b => some { s with bufO := s.bufO ++ [.baseI (b - 1) e], opc := .pt9 }
   | .pt9 => (releaseO s).map fun s' => { s' with opc := .idle }
+  | .assertFail => none
+  | .cll => if s.bufO.isEmpty then
+              match s.lock with
+              | .free => some { s with lock := .owner, opc := .cl1 }
+              | _ => some s
+            else none
+  | .cl1 => if viewTop s.bufO s.top = viewBase s.bufO s.base then
+              some { s with bufO := s.bufO ++ [.base (s.size / 2)], lb := s.size / 2, lt := s.size / 2, opc := .cl2 }
+            else some { s with opc := .assertFail }
+  | .cl2 => some { s with bufO := s.bufO ++ [.top (viewBase s.bufO s.base)], opc := .cl3 }
+  | .cl3 => (releaseO s).map fun s' => { s' with opc := .idle }
 
 def stepT (s : St) (p : Pid) : Option St :=
   match s.tpc p with
@@ -271,6 +401,61 @@ def stepT (s : St) (p : Pid) : Option St :=
   | .pk2 b => if b < viewTop (s.bufT p) s.top then some { s with tpc := upd s.tpc p (.pk3 b) }
               else some { s with tpc := upd s.tpc p .idle }
   | .pk3 _ => some { s with tpc := upd s.tpc p .idle }
+  | .wq0 => some { s with tpc := upd s.tpc p (.wq1 (viewTop (s.bufT p) s.top)) }
+  | .wq1 t => if t - viewBase (s.bufT p) s.base ≤ 0 then some { s with tpc := upd s.tpc p .idle }
+              else some { s with tpc := upd s.tpc p .wtl }
+  | .wtl => if (s.bufT p).isEmpty then
+              match s.lock with
+              | .free => some { s with lock := .thief p, tpc := upd s.tpc p .wk1 }
+              | _ => some { s with tpc := upd s.tpc p .idle }         -- trylock failed: return NULL
+            else none
+  | .wk1 => let b := viewBase (s.bufT p) s.base
+            some { s with bufT := upd s.bufT p (s.bufT p ++ [.base (b + 1)]), tpc := upd s.tpc p (.wkf b) }
+  | .wkf b => if fenceOk s.cfg.wtakeFence (s.bufT p) then some { s with tpc := upd s.tpc p (.wk2 b) } else none
+  | .wk2 b => if b < viewTop (s.bufT p) s.top then some { s with tpc := upd s.tpc p (.wk3 b) }
+              else some { s with tpc := upd s.tpc p (.wk5 b) }
+  | .wk3 b => some { s with tpc := upd s.tpc p (.wkd b (viewPtr (s.bufT p) s.ptr b)) }
+  | .wkd _ _ => none                    -- waits for the callback's verdict (label `tDecide`)
+  | .wk4 r => some { s with bufT := upd s.bufT p (s.bufT p ++ [.cache none]), tpc := upd s.tpc p (.wk4u r) }
+  | .wk4u r => (releaseT s p).map fun s' =>
+                { s' with tpc := upd s.tpc p .idle, retd := retOpt s.retd r, flT := none }
+  | .wk5 b => some { s with bufT := upd s.bufT p (s.bufT p ++ [.base b]), tpc := upd s.tpc p .wk6 }
+  | .wk6 => (releaseT s p).map fun s' => { s' with tpc := upd s.tpc p .idle }
+  | .vq0 => some { s with tpc := upd s.tpc p (.vq1 (viewTop (s.bufT p) s.top)) }
+  | .vq1 t => if t - viewBase (s.bufT p) s.base ≤ 0 then some { s with tpc := upd s.tpc p .idle }
+              else some { s with tpc := upd s.tpc p .vc0 }
+  | .vc0 => match viewCache (s.bufT p) s.cache with
+    | some _ => some { s with tpc := upd s.tpc p .vr }
+    | none => some { s with tpc := upd s.tpc p .vl }
+  | .vl => if (s.bufT p).isEmpty then
+             match s.lock with
+             | .free => some { s with lock := .thief p, tpc := upd s.tpc p .vc1 }
+             | _ => some { s with tpc := upd s.tpc p .vq0 }           -- trylock failed: goto start
+           else none
+  | .vc1 => match viewCache (s.bufT p) s.cache with
+    | some _ => some { s with tpc := upd s.tpc p .vu }
+    | none => some { s with tpc := upd s.tpc p .vk1 }
+  | .vk1 => let b := viewBase (s.bufT p) s.base
+            some { s with bufT := upd s.bufT p (s.bufT p ++ [.base (b + 1)]), tpc := upd s.tpc p (.vkf b) }
+  | .vkf b => if fenceOk s.cfg.wpeekFence (s.bufT p) then some { s with tpc := upd s.tpc p (.vk2 b) } else none
+  | .vk2 b => if b < viewTop (s.bufT p) s.top then some { s with tpc := upd s.tpc p (.vk3 b) }
+              else some { s with tpc := upd s.tpc p (.vk5 b) }
+  | .vk3 b => some { s with tpc := upd s.tpc p (.vk4 b (viewPtr (s.bufT p) s.ptr b)) }
+  | .vk4 b r => some { s with bufT := upd s.bufT p (s.bufT p ++ [.cache r]), tpc := upd s.tpc p (.vk5 b) }
+  | .vk5 b => some { s with bufT := upd s.bufT p (s.bufT p ++ [.base b]), tpc := upd s.tpc p .vu }
+  | .vu => (releaseT s p).map fun s' => { s' with tpc := upd s.tpc p .vr }
+  | .vr => some { s with tpc := upd s.tpc p .idle }
+
+/-- the decision callback of `myth_wsapi_runqueue_take` returns `accept` -/
+def stepD (s : St) (p : Pid) (accept : Bool) : Option St :=
+  match s.tpc p with
+  | .wkd b r =>
+    if accept then
+      match s.A with
+      | x :: A' => some { s with tpc := upd s.tpc p (.wk4 r), A := A', lb := s.lb + 1, tr := false, flT := some x }
+      | [] => some { s with tpc := upd s.tpc p (.wk4 r) }             -- unreachable when the invariant holds
+    else some { s with tpc := upd s.tpc p (.wk5 b) }
+  | _ => none
 
 def step (s : St) : Lbl → Option St
   | .oPush e => match s.opc with
@@ -281,6 +466,9 @@ def step (s : St) : Lbl → Option St
     | _ => none
   | .oPut e => match s.opc with
     | .idle => some { s with opc := .ptl e }
+    | _ => none
+  | .oClear => match s.opc with
+    | .idle => some { s with opc := .cll }
     | _ => none
   | .o => stepO s
   | .flushO => match s.bufO with
@@ -295,7 +483,14 @@ def step (s : St) : Lbl → Option St
   | .tPeek p => match s.tpc p with
     | .idle => some { s with tpc := upd s.tpc p .kq0 }
     | _ => none
+  | .tWTake p => match s.tpc p with
+    | .idle => some { s with tpc := upd s.tpc p .wq0 }
+    | _ => none
+  | .tWPeek p => match s.tpc p with
+    | .idle => some { s with tpc := upd s.tpc p .vq0 }
+    | _ => none
   | .t p => stepT s p
+  | .tDecide p a => stepD s p a
   | .flushT p => match s.bufT p with
     | st :: rest => some (applySto { s with bufT := upd s.bufT p rest } st)
     | [] => none
